@@ -121,6 +121,25 @@ def run(args):
         desc["kind"] = kind
         n = mod.nodes.shape[0]
         mod.delete_recordings(); mod.select(nodes=rows_pick(rng, n)).record("v", verbose=False)
+        # the loss may read ANY recorded quantity: in every second case also a membrane current (and, in networks, a synaptic current)
+        rec_extra = []
+        if t % 2 == 1 or directed:
+            ch = mod.channels[int(rng.integers(0, len(mod.channels)))] if len(mod.channels) else None
+            if ch is not None:
+                has = mod.nodes.index[mod.nodes[ch._name].astype(bool)].tolist()
+                if has:
+                    try:
+                        mod.select(nodes=[int(has[0])]).record(ch.current_name, verbose=False); rec_extra.append(ch.current_name)
+                    except KeyError:
+                        pass
+            if kind == "net" and len(mod.edges):
+                typ0 = str(mod.edges["type"].iloc[0])
+                try:
+                    mod.select(edges=[0]).record("i_" + typ0, verbose=False); rec_extra.append("i_" + typ0)
+                except KeyError:
+                    pass
+            R.count("loss-reads-currents" if rec_extra else "loss-reads-voltages-only")
+        desc["recorded_currents"] = rec_extra
         nsteps = int(rng.integers(5, 10))
         stim = 0.3 * np.ones(nsteps)
         mod.select(nodes=[0]).stimulate(jnp.asarray(stim), verbose=False)
